@@ -232,3 +232,11 @@ def features(case):
 
 def nontrivial(case):
     return any(x["t"] in ("list", "tuple", "dict", "obj", "set") for x in case["args"]) or bool(case["kwargs"])
+
+
+MANIFEST = dict(
+    design_ref='6/C06',
+    text="Coq theorems over all aliases, capture selections and tree-shaped argument values: the key text is a function of alias and captured values up to dict/attribute insertion order (deterministic_partial: sets carry their iteration order), arguments excluded from capture and kwargs order are irrelevant, keys are injective on (alias, captured values) for aliases without '=' given injective/self-delimiting json.dumps, flatten/restore round-trip on the faithful domain; the set-order clause is refuted with a witness (known finding F06). Model (select, flatten, dumps, ikey) tied to /repo on every run by comparing the exact key text of _input_interception_key, and the key found in a recording made through the real decorators, with the model's; direct predicate: same call under two other PYTHONHASHSEED values gives the same key, and no two distinct (alias, captured args) share a key.",
+    note='Trusted: Coq kernel + vm_compute; hand-written model of jsonpickle 0.9.3 flatten + json.dumps on the tree domain; quoted-printable for bytes is an oracle; injectivity of dumps is a premise of the injectivity theorem (not yet discharged by a parser); correspondence harness. One clause (sets) is a known finding, reported as KNOWN-FINDING.',
+    technique='Coq proof (induction over value trees, sorting/permutation lemmas) + exact key-text correspondence by vm_compute + two-hash-seed differential run',
+)
